@@ -220,6 +220,9 @@ def generate(tier, rng):
             continue
         yield 'CV %s %s %s %s %s %s %s %s' % (rng.choice(ROUTES), rng.choice(['raw', 'value']), shape_tok(sh, k), fm(x), fm(d),
                                               rng.choice(ROUNDS), rng.choice(OVFS), L(codes))
+        if sh == 1 and rng.random() < 0.5:
+            # an array of one element is an array: every route keeps its shape (1,)
+            yield 'CV %s raw (1,) %s %s %s %s %s' % (rng.choice(ROUTES), fm(x), fm(d), rng.choice(ROUNDS), rng.choice(OVFS), L(codes[:1]))
     # region stores of 2-D fixed-point arrays: broadcast column, block halves, masks
     for _ in range(600 if tier == 'quick' else 12000):
         x = G.rand_format(rng, fmin=-4, fextra=4)
